@@ -2195,4 +2195,87 @@ theorem attempt_gives_up_early (c : PCfg) (hold get : Bool) : ∀ (left : Nat) (
         · exact (tryAgain_false_succ (by simpa using ht)).2
     all_goals (first | cases h | simp at h)
 
+/-! ### Caddyfile: the fuel of the argument loops -/
+
+
+theorem nextArg_true {d : Disp} (h : d.nextArg.1 = true) :
+    d.nextArg.2.cur = d.cur + 1 ∧ d.nextArg.2.toks = d.toks ∧ d.cur ≤ d.toks.length := by
+  unfold Disp.nextArg at h ⊢
+  unfold Disp.nextOnSameLine at h ⊢
+  cases hc : d.cur with
+  | zero =>
+    simp only [hc] at h ⊢
+    split at h
+    · split at h
+      · simp at h
+      · rename_i hv
+        simp [hv]
+    · simp at h
+  | succ c =>
+    simp only [hc] at h ⊢
+    cases h0 : d.toks[c]? with
+    | none => simp [h0] at h
+    | some t1 =>
+      cases h1 : d.toks[c + 1]? with
+      | none => simp [h0, h1] at h
+      | some t2 =>
+        simp only [h0, h1] at h ⊢
+        have hlt : c + 1 < d.toks.length := (List.getElem?_eq_some_iff.1 h1).1
+        by_cases hl : t1.line < t2.line
+        · simp [hl] at h
+        · simp only [hl, if_false] at h ⊢
+          split at h
+          · split at h
+            · simp at h
+            · rename_i hv
+              simp [hv]; omega
+          · simp at h
+
+theorem nextArg_false_of_far {d : Disp} (h : d.toks.length + 1 ≤ d.cur) : d.nextArg = (false, d) := by
+  unfold Disp.nextArg Disp.nextOnSameLine
+  cases hc : d.cur with
+  | zero => omega
+  | succ c =>
+    have : d.toks[c + 1]? = none := List.getElem?_eq_none_iff.2 (by omega)
+    cases h0 : d.toks[c]? <;> simp [this]
+
+/-- the argument loops have fuel to spare: any fuel above "tokens left + 2" gives the same result -/
+theorem remainingArgs_fuel : ∀ (fuel fuel' : Nat) (d : Disp),
+    d.toks.length + 2 - d.cur ≤ fuel → d.toks.length + 2 - d.cur ≤ fuel' → remainingArgs fuel d = remainingArgs fuel' d
+  | 0, 0, _, _, _ => rfl
+  | 0, fuel' + 1, d, h, _ => by
+    unfold remainingArgs
+    rw [nextArg_false_of_far (by omega)]
+    simp
+  | fuel + 1, 0, d, _, h => by
+    unfold remainingArgs
+    rw [nextArg_false_of_far (by omega)]
+    simp
+  | fuel + 1, fuel' + 1, d, h, h' => by
+    unfold remainingArgs
+    by_cases ha : d.nextArg.1 = true
+    · obtain ⟨h1, h2, h3⟩ := nextArg_true ha
+      simp only [ha, if_true]
+      rw [remainingArgs_fuel fuel fuel' d.nextArg.2 (by rw [h1, h2]; omega) (by rw [h1, h2]; omega)]
+    · simp [ha]
+
+theorem segArgs_fuel : ∀ (fuel fuel' : Nat) (d : Disp),
+    d.toks.length + 2 - d.cur ≤ fuel → d.toks.length + 2 - d.cur ≤ fuel' → segArgs fuel d = segArgs fuel' d
+  | 0, 0, _, _, _ => rfl
+  | 0, fuel' + 1, d, h, _ => by
+    unfold segArgs
+    rw [nextArg_false_of_far (by omega)]
+    simp
+  | fuel + 1, 0, d, _, h => by
+    unfold segArgs
+    rw [nextArg_false_of_far (by omega)]
+    simp
+  | fuel + 1, fuel' + 1, d, h, h' => by
+    unfold segArgs
+    by_cases ha : d.nextArg.1 = true
+    · obtain ⟨h1, h2, h3⟩ := nextArg_true ha
+      simp only [ha, if_true]
+      rw [segArgs_fuel fuel fuel' d.nextArg.2 (by rw [h1, h2]; omega) (by rw [h1, h2]; omega)]
+    · simp [ha]
+
 end CaddyModel.C08
